@@ -190,10 +190,11 @@ def oracle_factory(ctx):
             if wantb is not None and not (bo.ok and bo.value == wantb):
                 return Failure("C09/%s/build" % kind, "%s.build(%s) -> %r, first alternative that builds alone gives %s | %s" % (kind, short(v), bo, wantb.hex(), where))
             return None
-        if kind == "grange":
+        if kind in ("grange", "grange-discard"):
             if V.min_size(specs[0]) < 1:
                 return None
-            con = C.Struct("items" / C.GreedyRange(subs[0]), "pos" / C.Tell)
+            discard = kind == "grange-discard"
+            con = C.Struct("items" / C.GreedyRange(subs[0], discard=discard), "pos" / C.Tell)
             o = call(con.parse_stream, s)
             vals, pos = [], start
             while True:
@@ -206,6 +207,8 @@ def oracle_factory(ctx):
                     return None
                 vals.append(ref.value)
                 pos = end
+            if discard:
+                vals = []      # discard=True: same consumption, empty result
             if not (o.ok and lib_eq(list(o.value["items"]), vals)):
                 return Failure("C09/greedyrange/value", "GreedyRange -> %r, successive isolated parses -> %s | %s" % (o, short(vals), where))
             if o.value.pos != pos or s.tell() != pos:
@@ -253,8 +256,8 @@ def oracle_factory(ctx):
 
 @st.composite
 def cases(draw):
-    kind = draw(st.sampled_from(["peek", "pointer", "select", "select", "optional", "grange", "grange", "union"]))
-    specs = draw(members(1, 1 if kind in ("peek", "pointer", "optional", "grange") else 3))
+    kind = draw(st.sampled_from(["peek", "pointer", "select", "select", "optional", "grange", "grange", "grange-discard", "union"]))
+    specs = draw(members(1, 1 if kind in ("peek", "pointer", "optional", "grange", "grange-discard") else 3))
     data, start = draw(inputs(specs))
     extra = None
     if kind == "pointer":
@@ -286,7 +289,7 @@ def campaign_corruptions(ctx):
             for pos in range(len(enc)):
                 for x in (1, 0x80, 0xff):
                     data = b"\xaa" + enc[:pos] + bytes([enc[pos] ^ x]) + enc[pos + 1:] + b"\x01"
-                    for kind, ss, extra in (("select", specs, None), ("grange", [sp], None), ("optional", [sp], None), ("peek", [sp], None), ("union", specs, 0)):
+                    for kind, ss, extra in (("select", specs, None), ("grange", [sp], None), ("grange-discard", [sp], None), ("optional", [sp], None), ("peek", [sp], None), ("union", specs, 0)):
                         ctx.check_case([kind, ss, extra, data, 1], orc)
             for cut in range(len(enc)):
                 ctx.check_case(["select", specs, None, b"\xaa" + enc[:cut], 1], orc)
